@@ -8,6 +8,9 @@ Case lines
   3 key slot usekey                 case entry: key value -> body table slot; usekey: the branch takes the key as first argument
   4 slot usekey                     default branch
   5 slot sos etick ewake rtick rwake d c m l acc cnt wk [erun [sd]]     body table entry (see below)
+  9 1                               set-input mode: nts must be 0; the switch holds one TSS<int> input instead, every case entry
+                                    is the delta consumer (seen += |added|; emit seen*100 + size); oracle-only (no model)
+  7 t op v                          set-input mode: at t add (op 1) / remove (op 0) v on the held set
   6 src t v                         scripted source tick: src 0 = key, 1 = first ts argument, 2 = second; at time t value v
 
 Branch body (one node, State<Int> st, NodeScheduler): inputs = [key if usekey] + the nts arguments, all must be valid to run.
@@ -25,6 +28,7 @@ Observation lines
   24 t inst             branch graph evaluated
   25 t inst node        node of the branch graph evaluated
   26 t inst st woke (valid modified value)*   user code of the body ran
+  56 t inst seen na nr nv added.. removed.. members..   delta consumer ran (set-input mode)
   27 t inst v           body emitted v
   28 t inst when        body requested a wake-up
   20 t valid modified v recorder on the switch output saw a tick (shape 0)
@@ -94,6 +98,8 @@ def _body_line(slot, b):
 def gen(rng, tier, prop):
     if rng.random() < 0.04:
         return _malformed(rng)
+    if prop != "C09" and rng.random() < 0.15:
+        return _gen_setin(rng, tier)
     start = rng.randint(1, 3)
     span = rng.randint(6, 22 if tier == "quick" else 40)
     end = start + span
@@ -166,6 +172,48 @@ def gen(rng, tier, prop):
     return case
 
 
+def _gen_setin(rng, tier):
+    """Set-input mode (line `9 1`): the switch holds ONE TSS<int> input (scripted adds / removes, line `7 t op v`,
+    op 1 add / 0 remove, only effective ops); every branch is the delta consumer `seen += |added|; emit seen*100 + size`.
+    Key changes are placed preferentially in the same cycle as a set tick."""
+    start = rng.randint(1, 3)
+    end = start + rng.randint(8, 20 if tier == "quick" else 36)
+    reload = 1 if rng.random() < 0.2 else 0
+    case = [[1, start, end], [9, 1], [2, 0, reload]]
+    keys = rng.sample([1, 2, 3, 4], rng.randint(2, 4))
+    for k in keys:
+        case.append([3, k, rng.randrange(NSLOT), 0])
+    if rng.random() < 0.4:
+        case.append([4, rng.randrange(NSLOT), 0])
+    members, set_times = set(), []
+    for t in range(start, end):
+        if rng.random() < 0.5:
+            ops = []
+            for _ in range(rng.randint(1, 2)):
+                if members and rng.random() < 0.3:
+                    v = rng.choice(sorted(members))
+                    if all(o[3] != v for o in ops):
+                        members.discard(v)
+                        ops.append([7, t, 0, v])
+                else:
+                    v = rng.randint(1, 9)
+                    if v not in members and all(o[3] != v for o in ops):
+                        members.add(v)
+                        ops.append([7, t, 1, v])
+            if ops:
+                case += ops
+                set_times.append(t)
+    prev = None
+    for t in range(start + rng.choice([0, 1, 2]), end):
+        p = 0.6 if t in set_times else 0.12
+        if rng.random() < p:
+            r = rng.random()
+            k = rng.choice([7, 8]) if r < 0.12 else (prev if (r < 0.25 and prev is not None) else rng.choice(keys))
+            prev = k
+            case.append([6, 0, t, k])
+    return case
+
+
 def enumerate_cases(prop):
     """Exhaustive small space (thorough tier): every key history over {no tick, 1, 2, 9} at five consecutive
     times, against a fixed input history, with/without default branch and reload: all flip patterns of
@@ -222,7 +270,7 @@ def _malformed(rng):
 
 # ---------------------------------------------------------------- parsing
 def parse_case(case):
-    d = dict(start=1, end=10, nts=1, reload=0, shape=0, depth=0, ents=[], dflt=None, tab=[None] * NSLOT, hist={0: {}, 1: {}, 2: {}})
+    d = dict(start=1, end=10, nts=1, reload=0, shape=0, depth=0, setin=0, setops={}, ents=[], dflt=None, tab=[None] * NSLOT, hist={0: {}, 1: {}, 2: {}})
     dfl = dict(sos=0, etick=1, ewake=0, rtick=0, rwake=0, d=1, c=0, m=0, l=1, acc=0, cnt=0, wk=0, erun=0, sd=0)
     d["tab"] = [dict(dfl) for _ in range(NSLOT)]
     for l in case:
@@ -246,6 +294,10 @@ def parse_case(case):
             d["tab"][l[1]] = b
         elif l[0] == 6 and len(l) >= 4 and 0 <= l[1] <= 2:
             d["hist"][l[1]].setdefault(l[2], l[3])
+        elif l[0] == 7 and len(l) >= 4:
+            d["setops"].setdefault(l[1], []).append((l[2], l[3]))
+        elif l[0] == 9 and len(l) >= 2:
+            d["setin"] = int(l[1] != 0)
     d["ok"] = (0 <= d["nts"] <= 2 and 0 <= d["shape"] <= 1 and 0 <= d["depth"] <= 2 and (d["depth"] == 0 or d["shape"] == 0) and (d["ents"] or d["dflt"] is not None)
                and all(0 <= e[1] < NSLOT for e in d["ents"])
                and (d["dflt"] is None or 0 <= d["dflt"][0] < NSLOT)
@@ -348,6 +400,8 @@ def oracle(prop, case, out):
         return fails
     if any(l[0] == 28 and len(l) == 2 for l in out):
         return [("crash", "driver could not build the graph")]
+    if d["setin"]:
+        return _oracle_setin(d, out)
     points, err_at = expected(d)
     errs = [l[1] for l in out if l[0] == 29]
     # --- an unmatched key with no default branch is an error (and nothing else is)
@@ -473,10 +527,67 @@ def oracle(prop, case, out):
     return fails
 
 
+def _oracle_setin(d, out):
+    """Held TSS input: a newly selected instance must be shown ALL current members as added in its first
+    evaluation (also when the set ticks in the selection cycle); afterwards it sees each cycle's delta; its
+    output is seen*100 + size with seen counted from its own instantiation."""
+    fails = []
+    points, err_at = expected(d)
+    errs = [l[1] for l in out if l[0] == 29]
+    if err_at is not None and errs != [2]:
+        fails.append(("missing_error", "unmatched key at %d without default, errors=%s" % (err_at, errs)))
+    if err_at is None and errs:
+        fails.append(("spurious_error", "error %s although every key is matched" % errs))
+    good = [p for p in points if p[2] is not None]
+    starts = [l for l in out if l[0] == 22]
+    if [l[1] for l in starts] != [p[0] for p in good] or [l[2] for l in starts] != list(range(len(starts))):
+        fails.append(("instance_per_selection", "branch graphs started at %s (ids %s), key history selects at %s"
+                      % ([l[1] for l in starts], [l[2] for l in starts], [p[0] for p in good])))
+    start, end = d["start"], d["end"]
+    times = sorted(t for t in d["setops"] if start <= t < end)
+
+    def members(t):
+        m = set()
+        for tt in times:
+            if tt > t:
+                break
+            for op, v in d["setops"][tt]:
+                (m.add if op else m.discard)(v)
+        return m
+    exp_rec = []
+    for n, (t0, k, br) in enumerate(good):
+        t1 = points[n + 1][0] if n + 1 < len(points) else end
+        evs = ([t0] if any(t <= t0 for t in times) else []) + [t for t in times if t0 < t < t1]
+        seen, prev, exp_runs = 0, None, []
+        for t in evs:
+            cur = members(t)
+            add = sorted(cur) if prev is None else sorted(cur - prev)
+            exp_runs.append((t, seen, add))
+            seen += len(add)
+            exp_rec.append((t, seen * 100 + len(cur)))
+            prev = cur
+        got = [(l[1], l[3], l[7:7 + l[4]]) for l in out if l[0] == 56 and l[2] == n]
+        if exp_runs and exp_runs[0][0] == t0:
+            if not got or got[0][0] != t0:
+                fails.append(("not_sampled", "instance %d selected at %d while the set is valid did not run at %d" % (n, t0, t0)))
+            elif got[0][2] != exp_runs[0][2]:
+                fails.append(("held_set_not_replayed", "instance %d selected at %d is shown added=%s; the held set is %s "
+                              "(all current members must be presented as added to a new instance)"
+                              % (n, t0, got[0][2], exp_runs[0][2])))
+        if got != exp_runs and not fails:
+            fails.append(("branch_runs", "instance %d ran (t, seen, added) %s; alone it runs %s" % (n, got[:6], exp_runs[:6])))
+    rec = [(l[1], l[4]) for l in out if l[0] == 20]
+    if rec != exp_rec:
+        i = next((j for j in range(min(len(rec), len(exp_rec))) if rec[j] != exp_rec[j]), min(len(rec), len(exp_rec)))
+        fails.append(("output_mismatch", "output ticks %s; the selected delta consumers alone give %s (first difference at %d)"
+                      % (rec[max(0, i - 2): i + 3], exp_rec[max(0, i - 2): i + 3], i)))
+    return fails
+
+
 PROP_KINDS = {
     "C12": {"missing_error", "spurious_error", "instance_per_selection", "slot_protocol", "two_running", "stopped_twice",
             "eval_after_stop", "eval_not_active", "not_fresh", "not_sampled", "branch_runs", "output_mismatch",
-            "old_members_survive", "nested_in_branch_differs",
+            "old_members_survive", "nested_in_branch_differs", "held_set_not_replayed",
             "malformed_not_rejected"},
     "C09": {"nested_in_branch_differs"},
 }
@@ -496,6 +607,8 @@ def agree(case, impl_out, model_out):
     if not isinstance(impl_out, list) or not isinstance(model_out, list):
         return False
     d = parse_case(case)
+    if d["ok"] and d["setin"]:
+        return True          # set-input mode is oracle-only: the Coq model has no collection-shaped inputs
     if d["ok"] and d["depth"] > 0:
         return _norm_nested(impl_out) == _norm_nested(model_out)
     return impl_out == model_out
@@ -534,6 +647,8 @@ def stats(case, out):
             "rapid_flips": rapid, "unmatched_error": int(err_at is not None), "default_selected": dfl,
             "reload_cases": d["reload"], "key_consuming": sum(1 for e in d["ents"] if e[2]),
             "nts0": int(d["nts"] == 0), "nts1": int(d["nts"] == 1), "nts2": int(d["nts"] == 2),
+            "set_input_cases": d["setin"],
+            "flip_in_same_cycle_as_set_tick": sum(1 for (t, k, br) in points[1:] if t in d["setops"]) * d["setin"],
             "set_shape": int(d["shape"] == 1), "nested_depth1": int(d["depth"] == 1), "nested_depth2": int(d["depth"] == 2),
             "nested_activations_with_held_input": (sum(1 for l in out if l[0] == 26 and any(l[1] == p[0] for p in points))
                                                    if d["depth"] > 0 else 0),
